@@ -143,3 +143,15 @@ def order_dependent_elimination(finding, replay, facts):
 
 
 MATCHERS['order_dependent_elimination'] = order_dependent_elimination
+
+
+def keyword_needs_blanks(finding, replay, facts):
+  """C15: only the always-run witness: a line break directly before the keyword operator `in`
+  turns a parsable rule into a ParsingException.  (Inside the whole-program kernels the same class
+  is accepted in the harness itself, restricted to ParsingException + line break/tab + position
+  adjacent to a keyword; a changed parse is never accepted.)"""
+  return (replay.get('kernel') == 'kf_keyword_needs_blanks' and replay.get('outcome') == 'ParsingException'
+          and replay.get('same_program_with_a_blank_parses') is True)
+
+
+MATCHERS['keyword_needs_blanks'] = keyword_needs_blanks
